@@ -43,6 +43,9 @@ inductive Val where
   | take (c : Nat) (x : Nat)  -- [:take ch x]
   | close (c : Nat)           -- [:close ch]
   | errClosed                 -- error "cannot write to closed channel"
+  | errCancel                 -- the value given to ev/cancel
+  | errDeadline               -- "deadline expired"
+  | errTimeout                -- "timeout"
   deriving Repr, DecidableEq
 
 /-- JANET_CP_MODE_* (MODE_CLOSE only travels in thread messages, not modelled here) -/
@@ -92,11 +95,15 @@ structure Fiber where
   suspended : Bool := false   -- JANET_FIBER_EV_FLAG_SUSPENDED
   deriving Repr, DecidableEq
 
-/-- JanetTimeout restricted to `(ev/sleep 0)` under a strictly increasing clock: deadlines are distinct and ordered
-    by registration, every timer is due at the next timer phase.  (C07 adds `when`, `curr_fiber`, `is_error`.) -/
+/-- JanetTimeout.  `curr = none`: a timeout of the fiber's current wait (ev/sleep: resumes with nil when `sched` is
+    still current; `isError`: raises "timeout").  `curr = some s`: a deadline (ev/deadline with `tocheck` = coroutine
+    `s`): when it expires and `s` is still resumable the task `fiber` is cancelled. -/
 structure Timer where
   fiber : Nat
   sched : Nat
+  when : Nat := 0
+  isError : Bool := false
+  curr : Option Nat := none
   deriving Repr, DecidableEq
 
 /-- History variables (not in the C): used only to state the theorems. -/
@@ -122,6 +129,11 @@ structure World where
   listeners : Nat := 0
   /-- janet_vm.root_fiber while a task is running -/
   current : Option Nat := none
+  /-- the clock: value returned by the last `ts_now()`; every read advances it by `clockStep` (harness: virtual clock) -/
+  clock : Nat := 0
+  clockStep : Nat := 1
+  /-- `janet_fiber_can_resume` of the body coroutines of `ev/with-deadline` (by scope id) -/
+  scopes : Nat → Bool := fun _ => false
   ghost : Ghost := {}
 
 def World.init (limits : Nat → Nat) : World :=
@@ -146,6 +158,9 @@ def scheduleGeneral (w : World) (f : Nat) (v : Val) (sig : Sig) (soon : Bool) : 
 
 /-- janet_schedule -/
 def schedule (w : World) (f : Nat) (v : Val) : World := scheduleGeneral w f v .ok false
+
+/-- janet_cancel -/
+def cancelFiber (w : World) (f : Nat) (v : Val) : World := scheduleGeneral w f v .error false
 
 /-- janet_schedule_soon -/
 def scheduleSoon (w : World) (f : Nat) (v : Val) (sig : Sig) : World := scheduleGeneral w f v sig true
@@ -303,6 +318,7 @@ inductive Outcome where
   | await                       -- the fiber is suspended
   | err (v : Val)               -- the C function raised; the fiber is finished with an error
   | resumed (f : Nat) (v : Val) -- the loop continued fiber `f` with value `v`
+  | resumedErr (f : Nat) (v : Val) -- the loop continued fiber `f` raising `v` in it (cancellation)
   | resumedDead (f : Nat)       -- the loop tried to continue a finished fiber
   | skipped                     -- stale task dropped
   | done                        -- fiber finished / loop bookkeeping
@@ -328,19 +344,44 @@ def loopRunTask (w : World) : World × Outcome :=
     else if !fiberCanResume fb then (w, .resumedDead t.fiber)
     else
       let w := setFiber w t.fiber { fb' with status := .alive }
-      ({ w with current := some t.fiber,
-                ghost := { w.ghost with received := w.ghost.received ++ receivedOf t.fiber t.value } },
-       .resumed t.fiber t.value)
+      match t.sig with
+      | .ok =>
+        ({ w with current := some t.fiber,
+                  ghost := { w.ghost with received := w.ghost.received ++ receivedOf t.fiber t.value } },
+         .resumed t.fiber t.value)
+      | .error => ({ w with current := some t.fiber }, .resumedErr t.fiber t.value)
 
-/-- timer phase of janet_loop1 (all `ev/sleep 0` timers are due) -/
+/-- add_timeout: the timer heap as a list ordered by deadline (the harness keeps deadlines distinct, so the heap's
+    pop order is the order of this list) -/
+def insertTimer (t : Timer) : List Timer → List Timer
+  | [] => [t]
+  | u :: rest => if t.when < u.when then t :: u :: rest else u :: insertTimer t rest
+
+/-- what the timer phase does with one expired timer -/
+def fireTimer (w : World) (t : Timer) : World :=
+  match t.curr with
+  | some s => if w.scopes s then cancelFiber w t.fiber .errDeadline else w
+  | none =>
+    if (w.fibers t.fiber).sched = t.sched then
+      (if t.isError then cancelFiber w t.fiber .errTimeout else schedule w t.fiber .nil)
+    else w
+
+/-- timer phase of janet_loop1: `now = ts_now(); while (peek_timeout(&to) && to.when <= now) { pop_timeout(0); ... }` -/
 def loopTimers (w : World) : World :=
-  let w' := { w with timers := [] }
-  w.timers.foldl (fun w t => if (w.fibers t.fiber).sched = t.sched then schedule w t.fiber .nil else w) w'
+  let now := w.clock + w.clockStep
+  let due := w.timers.takeWhile (fun t => t.when ≤ now)
+  let rest := w.timers.dropWhile (fun t => t.when ≤ now)
+  due.foldl fireTimer { w with clock := now, timers := rest }
 
 /-- poll phase of janet_loop1, "Drop timeouts that are no longer needed": leading timers whose fiber has been
     rescheduled since are popped before the loop decides whether / how long to poll -/
+def timerStale (w : World) (t : Timer) : Bool :=
+  match t.curr with
+  | some s => !w.scopes s
+  | none => (w.fibers t.fiber).sched != t.sched
+
 def loopPollDrop (w : World) : World :=
-  { w with timers := w.timers.dropWhile (fun t => (w.fibers t.fiber).sched != t.sched) }
+  { w with timers := w.timers.dropWhile (timerStale w) }
 
 def loopDone (w : World) : Bool := w.runq.isEmpty && w.timers.isEmpty && w.listeners == 0
 
@@ -352,7 +393,10 @@ inductive Action where
   | take (c : Nat)              -- ev/take
   | select (cls : List Clause)  -- ev/select (ev/rselect = ev/select after the shuffle)
   | close (c : Nat)             -- ev/chan-close
-  | sleep0                      -- (ev/sleep 0)
+  | sleep (ms : Nat)            -- (ev/sleep ms/1000)
+  | cancel (g : Nat)            -- (ev/cancel g "cancelled"), g another fiber
+  | deadline (s ms : Nat)       -- (ev/deadline ms/1000 nil s): start of an ev/with-deadline body, s = its coroutine
+  | scopeEnd (s : Nat)          -- the body coroutine s has finished (returned or raised)
   | finish (err : Bool)         -- the running fiber returns / raises
   | runTask                     -- loop: run phase, one task
   | timers                      -- loop: timer phase
@@ -364,7 +408,15 @@ def step (cfg : Cfg) (w : World) (a : Action) : World × Outcome :=
   | none, .runTask => loopRunTask w
   | none, .timers => (loopTimers w, .done)
   | none, .poll => (loopPollDrop w, .done)
-  | some _, .go g => (schedule w g .nil, .ret .nil)
+  | some _, .go g =>
+    -- ev/go on a fiber that has never been scheduled
+    if (w.fibers g).status = .new ∧ (w.fibers g).sched = 0 then (schedule w g .nil, .ret .nil) else (w, .noop)
+  | some f, .cancel g => if g = f then (w, .noop) else (cancelFiber w g .errCancel, .ret .nil)
+  | some f, .deadline s ms =>
+    let now := w.clock + w.clockStep
+    ({ w with clock := now, scopes := fun i => if i = s then true else w.scopes i,
+              timers := insertTimer ⟨f, (w.fibers f).sched, now + ms, false, some s⟩ w.timers }, .ret .nil)
+  | _, .scopeEnd s => ({ w with scopes := fun i => if i = s then false else w.scopes i }, .done)
   | some f, .give c x =>
     match chanPush cfg w f c x 0 with
     | .closedErr => (finishFiber w f true, .err .errClosed)
@@ -380,8 +432,10 @@ def step (cfg : Cfg) (w : World) (a : Action) : World × Outcome :=
     | some (w', v) => (w', .ret v)
     | none => (awaitFiber (choiceRegister cfg w f cls) f, .await)
   | some _, .close c => (chanClose cfg w c, .ret (.chan c))
-  | some f, .sleep0 =>
-    (awaitFiber { w with timers := w.timers ++ [⟨f, (w.fibers f).sched⟩] } f, .await)
+  | some f, .sleep ms =>
+    let now := w.clock + w.clockStep
+    (awaitFiber { w with clock := now, timers := insertTimer ⟨f, (w.fibers f).sched, now + ms, false, none⟩ w.timers } f,
+     .await)
   | some f, .finish e => (finishFiber w f e, .done)
   | _, _ => (w, .noop)
 
@@ -393,7 +447,7 @@ def run (cfg : Cfg) (w : World) (as : List Action) : World := as.foldl (fun w a 
 def lostWakeup (w : World) (f nch : Nat) : Bool :=
   (w.fibers f).status == .pending
   && w.runq.all (fun t => !(t.fiber == f && t.expected == (w.fibers f).sched))
-  && w.timers.all (fun t => !(t.fiber == f && t.sched == (w.fibers f).sched))
+  && w.timers.all (fun t => !(t.curr.isNone && t.fiber == f && t.sched == (w.fibers f).sched))
   && (List.range nch).all (fun c =>
         ((w.chans c).readPending ++ (w.chans c).writePending).all (fun p => !(p.fiber == f && p.live w.fibers)))
 
